@@ -21,6 +21,11 @@ static void build_cfgs() {
         htp_config_set_plusspace_decode(c, x, code & 1); htp_config_set_u_encoding_decode(c, x, (code >> 1) & 1);
         htp_config_set_nul_raw_terminates(c, x, (code >> 2) & 1); htp_config_set_nul_encoded_terminates(c, x, (code >> 3) & 1);
         htp_config_set_url_encoding_invalid_handling(c, x, (htp_url_encoding_handling_t)(code >> 4));
+        // the URL_PATH context gets the OPPOSITE of every switch: parameters must be decoded with the URLENCODED context's settings only
+        htp_decoder_ctx_t y = HTP_DECODER_URL_PATH;
+        htp_config_set_plusspace_decode(c, y, !(code & 1)); htp_config_set_u_encoding_decode(c, y, !((code >> 1) & 1));
+        htp_config_set_nul_raw_terminates(c, y, !((code >> 2) & 1)); htp_config_set_nul_encoded_terminates(c, y, !((code >> 3) & 1));
+        htp_config_set_url_encoding_invalid_handling(c, y, (htp_url_encoding_handling_t)(((code >> 4) + 1 + (code & 1)) % 3));
         g_cfgs.push_back({c, refdec::DecCfg::from(c, HTP_DECODER_URLENCODED), code});
     }
 }
@@ -118,6 +123,23 @@ static void random_multicut() {
     });
 }
 
+// token level: escapes that decode to another escape or to a delimiter (double decoding, decoding before splitting), truncated and invalid escapes, high bytes
+static void token_sequences() {
+    static const std::vector<std::string> T = {"a", "b", "1", "=", "&", "+", "%25", "%2541", "%252B", "%2B", "%2b", "%26", "%3d", "%3D", "%00", "%20", "%u0025", "%u002b", "%u0026", "%u003d", "%u0000", "%zz", "%", "%4", "%u", "%u00", "%u00z1", "%41",
+                                               "\xff", "\x80", std::string(1, '\0'), "%ff", "%FF", "%u00ff", "%uff0f", "%uff21", "%u0141", ";", "a=b", "&&", "=="};
+    int cases = A.thorough() ? 200000 : 25000;
+    rcx::run("urlenp_token_sequences", vc::mix(A.seed * 163 + A.shard), cases, 60, [&]() -> std::optional<rcx::Fail> {
+        int n = rcx::range(1, 12); std::string s; for (int i = 0; i < n; i++) s += T[(size_t)rcx::range(0, (int)T.size() - 1)];
+        int ncuts = rcx::range(0, 3); std::vector<size_t> cuts; for (int i = 0; i < ncuts && !s.empty(); i++) cuts.push_back((size_t)rcx::range(0, (int)s.size())); std::sort(cuts.begin(), cuts.end());
+        std::vector<std::string> chunks; size_t prev = 0; for (size_t c : cuts) { chunks.push_back(s.substr(prev, c - prev)); prev = c; } chunks.push_back(s.substr(prev));
+        int code = rcx::range(0, 47); std::string text = case_text(code, chunks); vc::set_current_case(text);
+        auto r = check(chunks, g_cfgs[code]);
+        if (!rcx::shrinking()) { g_stats.evaluations++; g_stats.cls("token_sequences"); if (s.find("%25") != std::string::npos || s.find("%2B") != std::string::npos || s.find("%26") != std::string::npos) g_stats.cls("token_escape_decodes_to_escape_or_delimiter"); if (nontrivial(s)) g_stats.nt(vc::fnv1a(text)); g_stats.sample_sparse(text, g_stats.evaluations + 1); }
+        if (!r.first.empty()) { std::string sig = "C15:" + r.first; if (A.is_known(sig)) { if (!rcx::shrinking()) g_stats.attributed[sig]++; return {}; } return rcx::Fail{sig, text, r.second}; }
+        return {};
+    });
+}
+
 // end to end: query string and POST body -> tx->request_params by source
 static std::pair<std::string, std::string> check_e2e(int pers, const std::string &qs, const std::string &body, const std::vector<size_t> &cuts) {
     vdrv::Config c; c.personality = pers; vdrv::Plan p; vdrv::Options o; o.dump = false; o.monitors = false;
@@ -179,6 +201,7 @@ int main(int argc, char **argv) {
         g_stats.init(A); g_stats.max_samples = 8; vc::install_crash_capture();
         exhaustive();
         if (g_stats.failures.empty()) random_multicut();
+        if (g_stats.failures.empty()) token_sequences();
         if (g_stats.failures.empty()) end_to_end();
         g_stats.write(); rc = g_stats.failures.empty() ? 0 : 1;
     }
